@@ -1,20 +1,14 @@
 (* Eval.v — the tree-walking evaluator: one case per Node class of src/nodes, with the checks
    in the order the C++ performs them.  Recursion is on fuel; FFuel is a distinct failure. *)
-From PE2 Require Export Heap Dates Enums Builtins.
+From PE2 Require Export Heap Control Files Dates Enums Builtins.
 Local Open Scope Z_scope.
-
-(* ---------------- budget (hook H1) ---------------- *)
-Definition budget_error {A} (t : token) (c : N) : M A := runtime_error_cls EBudget t c.
 
 Section Eval.
 Variable pedantic : bool.
 Variable repl : bool.
 Variable lim : limits.
 
-Definition tick (t : token) (c : N) : M unit :=
-  s <- gets s_steps ;;
-  if (0 <? max_steps lim) && (max_steps lim <? s + 1) then budget_error t c
-  else modify (set_steps (s + 1)).
+Notation tick := (Control.tick lim).
 
 Definition alloc_cells (n : Z) (c : N) : M unit :=
   k <- gets s_cellcount ;;
@@ -104,6 +98,96 @@ Definition arith_int (op : ttype) (a b : Z) : Z :=
 
 Definition mod_real (x y : real) : real := let z := rdiv x y in rmul (rsub z (rfloor z)) y.
 
+(* ArithmeticOperationNode::evaluate after both operands have been evaluated *)
+Definition eval_arith (t : token) (c : N) (lr0 rr0 : result) : M result :=
+    let swap := dt_is (r_type lr0) KInt && dt_is (r_type rr0) KEnum in
+    let lr := if swap then rr0 else lr0 in
+    let rr := if swap then lr0 else rr0 in
+    if dt_is (r_type lr) KEnum && dt_is (r_type rr) KInt && (tt_eqb (tt t) TPLUS || tt_eqb (tt t) TMINUS) then
+      p <- as_payload lr ;; k <- as_int rr ;;
+      match p with
+      | PEnum tn idx =>
+        d <- lookup_enum_def c tn true ;;
+        match d with
+        | None => crash "userType.cpp Enum::getDefinition null"
+        | Some vals =>
+          let n := Z.of_nat (List.length vals) in
+          if n =? 0 then crash "enum arithmetic: remainder by zero" else
+          let '(a, b) := if swap then (k, idx) else (idx, k) in
+          ret (mkRes (mkDT KEnum (Some tn)) (Some (PEnum tn (enum_arith (tt_eqb (tt t) TPLUS) a b n))))
+        end
+      | _ => crash "get<Enum> on other payload"
+      end
+    else if negb (is_numeric (r_type lr)) || negb (is_numeric (r_type rr)) then rt_error t c
+    else if dt_is (r_type lr) KInt && dt_is (r_type rr) KInt then
+      a <- as_int lr ;; b <- as_int rr ;;
+      match tt t with
+      | TSLASH => if b =? 0 then rt_error t c else ret (res_of KReal (PReal (rdiv (real_of_z a) (real_of_z b))))
+      | TMOD | TDIV => if b =? 0 then rt_error t c else ret (res_of KInt (PInt (arith_int (tt t) a b)))
+      | TPLUS | TMINUS | TSTAR => ret (res_of KInt (PInt (arith_int (tt t) a b)))
+      | _ => crash "arithmetic.cpp operator abort"
+      end
+    else
+      a <- num_as_real lr ;; b <- num_as_real rr ;;
+      match tt t with
+      | TPLUS => ret (res_of KReal (PReal (radd a b)))
+      | TMINUS => ret (res_of KReal (PReal (rsub a b)))
+      | TSTAR => ret (res_of KReal (PReal (rmul a b)))
+      | TSLASH => if is_rzero b then rt_error t c else ret (res_of KReal (PReal (rdiv a b)))
+      | TMOD => if is_rzero b then rt_error t c else ret (res_of KReal (PReal (mod_real a b)))
+      | TDIV => if is_rzero b then rt_error t c else ret (res_of KInt (PInt (real_to_int64 (rfloor (rdiv a b)))))
+      | _ => crash "arithmetic.cpp operator abort"
+      end.
+
+(* ComparisonNode::evaluate after both operands have been evaluated *)
+Definition eval_cmp (t : token) (c : N) (lr0 rr0 : result) : M result :=
+    '(lr, rr) <-
+      (if dt_is (r_type lr0) KChar && dt_is (r_type rr0) KChar then
+         a <- as_char lr0 ;; b <- as_char rr0 ;;
+         ret (res_of KInt (PInt (schar_of_ascii a)), res_of KInt (PInt (schar_of_ascii b)))
+       else if dt_is (r_type lr0) KDate && dt_is (r_type rr0) KDate then
+         a <- as_payload lr0 ;; b <- as_payload rr0 ;;
+         match a, b with
+         | PDate d1 m1 y1, PDate d2 m2 y2 => ret (res_of KInt (PInt (date_key d1 m1 y1)), res_of KInt (PInt (date_key d2 m2 y2)))
+         | _, _ => crash "get<Date> on other payload"
+         end
+       else ret (lr0, rr0)) ;;
+    if negb (is_numeric (r_type lr)) || negb (is_numeric (r_type rr)) then
+      let eq := tt_eqb (tt t) TEQUALS in
+      if negb eq && negb (tt_eqb (tt t) TNOT_EQUALS) then rt_error t c
+      else if negb (dt_eq (r_type lr) (r_type rr)) then ret (res_of KBool (PBool (negb eq)))
+      else
+        let fin (ceq : bool) := ret (res_of KBool (PBool (if eq then ceq else negb ceq))) in
+        match dk (r_type lr) with
+        | KBool => a <- as_bool lr ;; b <- as_bool rr ;; fin (Bool.eqb a b)
+        | KStr => a <- as_str lr ;; b <- as_str rr ;; fin (str_eqb a b)
+        | KEnum => a <- as_payload lr ;; b <- as_payload rr ;;
+                   match a, b with PEnum _ i, PEnum _ j => fin (i =? j) | _, _ => crash "get<Enum> on other payload" end
+        | _ => rt_error t c
+        end
+    else if dt_is (r_type lr) KInt && dt_is (r_type rr) KInt then
+      a <- as_int lr ;; b <- as_int rr ;;
+      match tt t with
+      | TEQUALS => ret (res_of KBool (PBool (a =? b)))
+      | TNOT_EQUALS => ret (res_of KBool (PBool (negb (a =? b))))
+      | TGREATER => ret (res_of KBool (PBool (b <? a)))
+      | TLESSER => ret (res_of KBool (PBool (a <? b)))
+      | TGREATER_EQUAL => ret (res_of KBool (PBool (b <=? a)))
+      | TLESSER_EQUAL => ret (res_of KBool (PBool (a <=? b)))
+      | _ => crash "comparison.cpp operator abort"
+      end
+    else
+      a <- num_as_real lr ;; b <- num_as_real rr ;;
+      match tt t with
+      | TEQUALS => ret (res_of KBool (PBool (req a b)))
+      | TNOT_EQUALS => ret (res_of KBool (PBool (rne a b)))
+      | TGREATER => ret (res_of KBool (PBool (rgt a b)))
+      | TLESSER => ret (res_of KBool (PBool (rlt a b)))
+      | TGREATER_EQUAL => ret (res_of KBool (PBool (rge a b)))
+      | TLESSER_EQUAL => ret (res_of KBool (PBool (rle a b)))
+      | _ => crash "comparison.cpp operator abort"
+      end.
+
 (* ---------------- standard input ---------------- *)
 (* std::getline(std::cin, line) : the line, and whether the stream hit end-of-file while reading *)
 Definition read_line : M (str * bool) :=
@@ -115,64 +199,6 @@ Definition read_line : M (str * bool) :=
       end in
   let '(l, r, eof) := go inp [] in
   modify (set_in r) ;;; ret (l, eof).
-
-(* ---------------- files ---------------- *)
-Definition os_name_ok (n : str) : bool :=
-  match n with
-  | [] => false
-  | _ => forallb (fun c => negb (aeqb c "/"%char) && negb (aeqb c ch_nul)) n
-         && (Z.of_nat (List.length n) <=? 255)
-         && negb (str_eqb n (str_of_string ".")) && negb (str_eqb n (str_of_string ".."))
-  end.
-
-Fixpoint fs_set (n : str) (v : str) (fs : list (str * str)) : list (str * str) :=
-  match fs with
-  | [] => [(n, v)]
-  | (k, x) :: r => if str_eqb n k then (k, v) :: r else (k, x) :: fs_set n v r
-  end.
-Definition fs_get (n : str) (fs : list (str * str)) : option str := assoc_str n fs.
-
-Fixpoint find_file (n : str) (l : list ofile) : option ofile :=
-  match l with [] => None | f :: r => if str_eqb (of_name f) n then Some f else find_file n r end.
-Fixpoint replace_file (f : ofile) (l : list ofile) : list ofile :=
-  match l with [] => [] | g :: r => if str_eqb (of_name g) (of_name f) then f :: r else g :: replace_file f r end.
-Fixpoint remove_file (n : str) (l : list ofile) : list ofile :=
-  match l with [] => [] | g :: r => if str_eqb (of_name g) n then r else g :: remove_file n r end.
-
-Definition close_file_effect (f : ofile) : M unit :=
-  match of_mode f with
-  | FRandom => if of_modified f then modify (fun s => set_fs (fs_set (of_name f) (store_records (of_recs f)) (s_fs s)) s)
-               else ret Datatypes.tt
-  | _ => ret Datatypes.tt
-  end.
-
-(* FileManager::createFile *)
-Definition create_file (name : str) (mode : fmode) : M bool :=
-  if negb (os_name_ok name) then ret false else
-  fs <- gets s_fs ;;
-  match fs_get name fs, mode with
-  | None, FRead | None, FAppend => ret false
-  | None, FRandom =>
-    modify (fun s => set_fs (fs_set name [] (s_fs s)) (set_files (s_files s ++ [mkOfile name FRandom [] [] 0 false]) s)) ;;; ret true
-  | None, FWrite | Some _, FWrite =>
-    modify (fun s => set_fs (fs_set name [] (s_fs s)) (set_files (s_files s ++ [mkOfile name FWrite [] [] 0 false]) s)) ;;; ret true
-  | Some content, FRead => modify (fun s => set_files (s_files s ++ [mkOfile name FRead content [] 0 false]) s) ;;; ret true
-  | Some _, FAppend => modify (fun s => set_files (s_files s ++ [mkOfile name FAppend [] [] 0 false]) s) ;;; ret true
-  | Some content, FRandom =>
-    modify (fun s => set_files (s_files s ++ [mkOfile name FRandom [] (load_records content) 0 false]) s) ;;; ret true
-  end.
-
-Definition update_file (f : ofile) : M unit := modify (fun s => set_files (replace_file f (s_files s)) s).
-
-(* File::read : std::getline on the handle *)
-Definition file_read_line (f : ofile) : str * ofile :=
-  let fix go (s : str) (acc : str) : str * str :=
-      match s with [] => (rev acc, []) | c :: r => if aeqb c ch_nl then (rev acc, r) else go r (c :: acc) end in
-  let '(l, r) := go (of_rest f) [] in
-  (l, mkOfile (of_name f) (of_mode f) r (of_recs f) (of_ptr f) (of_modified f)).
-
-Fixpoint set_nth_str (l : list str) (i : Z) (v : str) : list str :=
-  match l with [] => [] | x :: r => if i =? 0 then v :: r else x :: set_nth_str r (i - 1) v end.
 
 (* ---------------- REPL echo / OUTPUT forms ---------------- *)
 Definition enum_name (c : N) (tn : str) (idx : Z) : M str :=
@@ -333,6 +359,16 @@ Definition run_builtin (n : str) (fc : N) (args : list payload) : M result :=
 (* ---------------- the evaluator ---------------- *)
 Definition hfuel : nat := 64.        (* nesting depth of record values: heap traversals *)
 
+(* the store sequence of AssignNode once value and target are known: constant test, implicit
+   conversion, type test, then the store itself *)
+Definition store_value (t : token) (c : N) (id : N) (v : result) : M result :=
+  cl <- get_cell id ;;
+  if c_const cl then rt_error t c else
+  v' <- implicit_cast (c_type cl) v ;;
+  if negb (dt_eq (c_type cl) (r_type v')) then rt_error t c
+  else assign_val hfuel id v' ;;; ret res_none.
+
+
 Definition expect_holder_var (t : token) (c : N) (h : holder) : M N :=
   match h with HVar id => ret id | HArr _ => array_direct_error t c end.
 
@@ -375,93 +411,9 @@ Fixpoint eval (fuel : nat) (n : node) (c : N) {struct fuel} : M result :=
     else if dt_is (r_type r) KReal then x <- as_real r ;; ret (res_of KReal (PReal (rmul x (real_of_z (-1)))))
     else rt_error t c
   | NArith t l r =>
-    lr0 <- eval f l c ;; rr0 <- eval f r c ;;
-    let swap := dt_is (r_type lr0) KInt && dt_is (r_type rr0) KEnum in
-    let lr := if swap then rr0 else lr0 in
-    let rr := if swap then lr0 else rr0 in
-    if dt_is (r_type lr) KEnum && dt_is (r_type rr) KInt && (tt_eqb (tt t) TPLUS || tt_eqb (tt t) TMINUS) then
-      p <- as_payload lr ;; k <- as_int rr ;;
-      match p with
-      | PEnum tn idx =>
-        d <- lookup_enum_def c tn true ;;
-        match d with
-        | None => crash "userType.cpp Enum::getDefinition null"
-        | Some vals =>
-          let n := Z.of_nat (List.length vals) in
-          if n =? 0 then crash "enum arithmetic: remainder by zero" else
-          let '(a, b) := if swap then (k, idx) else (idx, k) in
-          ret (mkRes (mkDT KEnum (Some tn)) (Some (PEnum tn (enum_arith (tt_eqb (tt t) TPLUS) a b n))))
-        end
-      | _ => crash "get<Enum> on other payload"
-      end
-    else if negb (is_numeric (r_type lr)) || negb (is_numeric (r_type rr)) then rt_error t c
-    else if dt_is (r_type lr) KInt && dt_is (r_type rr) KInt then
-      a <- as_int lr ;; b <- as_int rr ;;
-      match tt t with
-      | TSLASH => if b =? 0 then rt_error t c else ret (res_of KReal (PReal (rdiv (real_of_z a) (real_of_z b))))
-      | TMOD | TDIV => if b =? 0 then rt_error t c else ret (res_of KInt (PInt (arith_int (tt t) a b)))
-      | TPLUS | TMINUS | TSTAR => ret (res_of KInt (PInt (arith_int (tt t) a b)))
-      | _ => crash "arithmetic.cpp operator abort"
-      end
-    else
-      a <- num_as_real lr ;; b <- num_as_real rr ;;
-      match tt t with
-      | TPLUS => ret (res_of KReal (PReal (radd a b)))
-      | TMINUS => ret (res_of KReal (PReal (rsub a b)))
-      | TSTAR => ret (res_of KReal (PReal (rmul a b)))
-      | TSLASH => if is_rzero b then rt_error t c else ret (res_of KReal (PReal (rdiv a b)))
-      | TMOD => if is_rzero b then rt_error t c else ret (res_of KReal (PReal (mod_real a b)))
-      | TDIV => if is_rzero b then rt_error t c else ret (res_of KInt (PInt (real_to_int64 (rfloor (rdiv a b)))))
-      | _ => crash "arithmetic.cpp operator abort"
-      end
+    lr0 <- eval f l c ;; rr0 <- eval f r c ;; eval_arith t c lr0 rr0
   | NCmp t l r =>
-    lr0 <- eval f l c ;; rr0 <- eval f r c ;;
-    '(lr, rr) <-
-      (if dt_is (r_type lr0) KChar && dt_is (r_type rr0) KChar then
-         a <- as_char lr0 ;; b <- as_char rr0 ;;
-         ret (res_of KInt (PInt (schar_of_ascii a)), res_of KInt (PInt (schar_of_ascii b)))
-       else if dt_is (r_type lr0) KDate && dt_is (r_type rr0) KDate then
-         a <- as_payload lr0 ;; b <- as_payload rr0 ;;
-         match a, b with
-         | PDate d1 m1 y1, PDate d2 m2 y2 => ret (res_of KInt (PInt (date_key d1 m1 y1)), res_of KInt (PInt (date_key d2 m2 y2)))
-         | _, _ => crash "get<Date> on other payload"
-         end
-       else ret (lr0, rr0)) ;;
-    if negb (is_numeric (r_type lr)) || negb (is_numeric (r_type rr)) then
-      let eq := tt_eqb (tt t) TEQUALS in
-      if negb eq && negb (tt_eqb (tt t) TNOT_EQUALS) then rt_error t c
-      else if negb (dt_eq (r_type lr) (r_type rr)) then ret (res_of KBool (PBool (negb eq)))
-      else
-        let fin (ceq : bool) := ret (res_of KBool (PBool (if eq then ceq else negb ceq))) in
-        match dk (r_type lr) with
-        | KBool => a <- as_bool lr ;; b <- as_bool rr ;; fin (Bool.eqb a b)
-        | KStr => a <- as_str lr ;; b <- as_str rr ;; fin (str_eqb a b)
-        | KEnum => a <- as_payload lr ;; b <- as_payload rr ;;
-                   match a, b with PEnum _ i, PEnum _ j => fin (i =? j) | _, _ => crash "get<Enum> on other payload" end
-        | _ => rt_error t c
-        end
-    else if dt_is (r_type lr) KInt && dt_is (r_type rr) KInt then
-      a <- as_int lr ;; b <- as_int rr ;;
-      match tt t with
-      | TEQUALS => ret (res_of KBool (PBool (a =? b)))
-      | TNOT_EQUALS => ret (res_of KBool (PBool (negb (a =? b))))
-      | TGREATER => ret (res_of KBool (PBool (b <? a)))
-      | TLESSER => ret (res_of KBool (PBool (a <? b)))
-      | TGREATER_EQUAL => ret (res_of KBool (PBool (b <=? a)))
-      | TLESSER_EQUAL => ret (res_of KBool (PBool (a <=? b)))
-      | _ => crash "comparison.cpp operator abort"
-      end
-    else
-      a <- num_as_real lr ;; b <- num_as_real rr ;;
-      match tt t with
-      | TEQUALS => ret (res_of KBool (PBool (req a b)))
-      | TNOT_EQUALS => ret (res_of KBool (PBool (rne a b)))
-      | TGREATER => ret (res_of KBool (PBool (rgt a b)))
-      | TLESSER => ret (res_of KBool (PBool (rlt a b)))
-      | TGREATER_EQUAL => ret (res_of KBool (PBool (rge a b)))
-      | TLESSER_EQUAL => ret (res_of KBool (PBool (rle a b)))
-      | _ => crash "comparison.cpp operator abort"
-      end
+    lr0 <- eval f l c ;; rr0 <- eval f r c ;; eval_cmp t c lr0 rr0
   | NLogic t l r =>
     lr <- eval f l c ;;
     let is_and := tt_eqb (tt t) TAND in
@@ -558,11 +510,7 @@ Fixpoint eval (fuel : nat) (n : node) (c : N) {struct fuel} : M result :=
                                                       add_var c (tval tk) nid ;;; ret nid)
                                          | _, _ => None end
                              | _ => None end) ;;
-      cl <- get_cell id ;;
-      if c_const cl then rt_error t c else
-      v' <- implicit_cast (c_type cl) v ;;
-      if negb (dt_eq (c_type cl) (r_type v')) then rt_error t c
-      else assign_val hfuel id v' ;;; ret res_none
+      store_value t c id v
     end
   | NPtrAssign t pr vr =>
     ph <- resolve f pr c ;;
@@ -651,53 +599,18 @@ Fixpoint eval (fuel : nat) (n : node) (c : N) {struct fuel} : M result :=
     if ist then rt_error t c
     else upd_ctx c (fun k => ctx_with_comps (x_comps k ++ [(tval name, body)]) k) ;;; ret res_none
   | NIf t comps =>
-    (fix go (l : list (option node * list node)) : M result :=
-       match l with
-       | [] => ret res_none
-       | (None, b) :: _ => run_block f b c ;;; ret res_none
-       | (Some cond, b) :: rest =>
-         cr <- eval f cond c ;;
-         if negb (dt_is (r_type cr) KBool) then rt_error t c else
-         v <- as_bool cr ;;
-         if v then run_block f b c ;;; ret res_none else go rest
-       end) comps
+    if_chain t c (map (fun p : option node * list node =>
+                             (match fst p with Some e => Some (eval f e c) | None => None end, run_block f (snd p) c)) comps)
   | NCase t sel cases =>
     v <- eval f sel c ;;
-    (fix go (l : list casecomp) : M result :=
-       match l with
-       | [] => ret res_none
-       | COther b :: _ => run_block f b c ;;; ret res_none
-       | CEq b e :: rest =>
-         m <- case_equals f v e c ;;
-         if m then run_block f b c ;;; ret res_none else go rest
-       | CRange b lo hi :: rest =>
-         m <- case_range f v lo hi c ;;
-         if m then run_block f b c ;;; ret res_none else go rest
-       end) cases
-  | NWhile t cond body =>
-    (fix loop (k : nat) : M result :=
-       match k with O => failm FFuel | S k' =>
-         tick t c ;;;
-         cr <- eval f cond c ;;
-         if negb (dt_is (r_type cr) KBool) then rt_error t c else
-         v <- as_bool cr ;;
-         if negb v then ret res_none else
-         go_on <- catch (run_block f body c ;;; ret true)
-                        (fun fl => match fl with FBreak _ => Some (ret false) | FContinue _ => Some (ret true) | _ => None end) ;;
-         if go_on then loop k' else ret res_none
-       end) f
-  | NRepeat t cond body =>
-    (fix loop (k : nat) : M result :=
-       match k with O => failm FFuel | S k' =>
-         tick t c ;;;
-         go_on <- catch (run_block f body c ;;; ret true)
-                        (fun fl => match fl with FBreak _ => Some (ret false) | FContinue _ => Some (ret true) | _ => None end) ;;
-         if negb go_on then ret res_none else
-         cr <- eval f cond c ;;
-         if negb (dt_is (r_type cr) KBool) then rt_error t c else
-         v <- as_bool cr ;;
-         if v then ret res_none else loop k'
-       end) f
+    case_chain (map (fun cc : casecomp =>
+                       match cc with
+                       | COther b => (ret true, run_block f b c)
+                       | CEq b e => (case_equals f v e c, run_block f b c)
+                       | CRange b lo hi => (case_range f v lo hi c, run_block f b c)
+                       end) cases)
+  | NWhile t cond body => while_loop lim f t c (eval f cond c) (run_block f body c)
+  | NRepeat t cond body => repeat_loop lim f t c (eval f cond c) (run_block f body c)
   | NFor t id start stop step body =>
     ex <- lookup_var c (tval id) true ;;
     it <- match ex with
@@ -718,25 +631,7 @@ Fixpoint eval (fuel : nat) (n : node) (c : N) {struct fuel} : M result :=
              end ;;
     sv <- as_int sr ;; ev <- as_int er ;;
     set_cell_val it (PInt sv) ;;;
-    (fix loop (k : nat) : M result :=
-       match k with O => failm FFuel | S k' =>
-         cl <- get_cell it ;;
-         match c_val cl with
-         | PInt i =>
-           if (if stepv <? 0 then ev <=? i else i <=? ev) then
-             tick t c ;;;
-             go_on <- catch (run_block f body c ;;; ret true)
-                            (fun fl => match fl with FBreak _ => Some (ret false) | FContinue _ => Some (ret true) | _ => None end) ;;
-             if negb go_on then ret res_none else
-             cl' <- get_cell it ;;
-             match c_val cl' with
-             | PInt j => set_cell_val it (PInt (wrap64 (j + stepv))) ;;; loop k'
-             | _ => crash "cell payload disagrees with its type"
-             end
-           else ret res_none
-         | _ => crash "cell payload disagrees with its type"
-         end
-       end) f
+    for_loop lim f t c it stepv ev (run_block f body c)
   | NBreak t => failm (FBreak t)
   | NContinue t => failm (FContinue t)
   | NProc t name params body =>
@@ -872,8 +767,10 @@ Fixpoint eval (fuel : nat) (n : node) (c : N) {struct fuel} : M result :=
     | Some fh =>
       match of_mode fh with
       | FRandom =>
-        if Z.of_nat (List.length (of_recs fh)) + 1 <? addr then rt_error t c
-        else update_file (mkOfile (of_name fh) FRandom (of_rest fh) (of_recs fh) (addr - 1) (of_modified fh)) ;;; ret res_none
+        match rf_seek fh addr with
+        | None => rt_error t c
+        | Some fh' => update_file fh' ;;; ret res_none
+        end
       | _ => rt_error t c
       end
     end
@@ -895,7 +792,7 @@ Fixpoint eval (fuel : nat) (n : node) (c : N) {struct fuel} : M result :=
           if dt_is (c_type cl) KPtr then rt_error t c else
           (match ao with Some aid => a <- get_arr aid ;; if dt_is (a_type a) KPtr then rt_error t c else ret Datatypes.tt | None => ret Datatypes.tt end) ;;;
           if c_const cl then rt_error t c else
-          match nth_z (of_recs fh) (of_ptr fh) with
+          match rf_get fh with
           | None => rt_error t c
           | Some rec =>
             old <- abs_val hfuel c (c_val cl) ;;
@@ -906,7 +803,7 @@ Fixpoint eval (fuel : nat) (n : node) (c : N) {struct fuel} : M result :=
         | None, Some aid =>
           a <- get_arr aid ;;
           if dt_is (a_type a) KPtr then rt_error t c else
-          match nth_z (of_recs fh) (of_ptr fh) with
+          match rf_get fh with
           | None => rt_error t c
           | Some rec =>
             olds <- mapM (fun e : N => cl <- get_cell e ;; abs_val hfuel c (c_val cl)) (a_elems a) ;;
@@ -943,9 +840,7 @@ Fixpoint eval (fuel : nat) (n : node) (c : N) {struct fuel} : M result :=
                  trs <- mapM (fun e : N => cl <- get_cell e ;; abs_val hfuel c (c_val cl)) (a_elems a) ;;
                  match dump_array trs with Some s => ret s | None => unsupported "NaN text" end
                end ;;
-        let n := Z.of_nat (List.length (of_recs fh)) in
-        let recs' := if of_ptr fh =? n then of_recs fh ++ [txt] else set_nth_str (of_recs fh) (of_ptr fh) txt in
-        update_file (mkOfile (of_name fh) FRandom (of_rest fh) recs' (of_ptr fh) true) ;;; ret res_none
+        update_file (rf_put fh txt) ;;; ret res_none
       | _ => rt_error t c
       end
     end
